@@ -122,21 +122,22 @@ def verdict (st : State) (c : Call) (bd : Dump) (braw : List (List String)) (ad 
   | .error e => ("MODEL-INPUT-ERROR before-dump-is-not-a-tree:" ++ e, .unknown)
   | .ok tree =>
     let topo := topoOf bd tree
+    let wfB := wfCheck bd      -- evaluated once (A8)
     -- the hypothesis of the exactness theorems must hold on every well-formed BEFORE dump (WF implies SetsOK)
-    let hyp := (if okT tree || !(wfCheck bd).isEmpty then [] else ["hypothesis-SetsOK-fails-on-a-WF-before-dump"]) ++
+    let hyp := (if okT tree || !wfB.isEmpty then [] else ["hypothesis-SetsOK-fails-on-a-WF-before-dump"]) ++
                (if st.selfcheck && (connectLevels tree).map (·.map (·.gp)) != levelsOfDump bd then ["selfcheck-levels-model-before"] else [])
     -- renderer tie on the BEFORE dump: links and levels recomputed from the bare tree must reproduce hwloc's
     let tb := gpTable bd
     let hyp := hyp ++ (match dumpDiff (render tree (hdrOf bd) (extraOf tb tb)) bd with
       | none => [] | some s => ["render-before:" ++ s]) ++
       -- hypothesis of the link theorems (C08_render_links): every well-formed topology has a typed tree
-      (if (typedT tree && puLeafT tree && isNormal tree.obj.type) || !(wfCheck bd).isEmpty then [] else ["hypothesis-typedT-fails-on-a-WF-before-dump"]) ++
+      (if (typedT tree && puLeafT tree && isNormal tree.obj.type) || !wfB.isEmpty then [] else ["hypothesis-typedT-fails-on-a-WF-before-dump"]) ++
       -- A8: what C08_wf_implies_okT proves for every WF dump, evaluated: Machine root, PU / NUMA singletons, leaf hypotheses
       (if (tree.obj.type == tMACHINE && puSetsT tree && numaSetsT tree && leafTyT tPU tree && leafTyT tNUMA tree) ||
-          !(wfCheck bd).isEmpty then [] else ["hypothesis-singletons-fails-on-a-WF-before-dump"]) ++
+          !wfB.isEmpty then [] else ["hypothesis-singletons-fails-on-a-WF-before-dump"]) ++
       -- A8: hypothesis of C08_merge_keeps_pus / C08_pus_exact_whole / C08_restrict_wf_partial: distinct gp_index over the TREE, no
       -- KEEP_STRUCTURE filter on the PU type and on the root's type
-      (if decide (mergeSafe topo) || !(wfCheck bd).isEmpty then [] else ["hypothesis-mergeSafe-fails-on-a-WF-before-dump"])
+      (if decide (mergeSafe topo) || !wfB.isEmpty then [] else ["hypothesis-mergeSafe-fails-on-a-WF-before-dump"])
     let (topo', ret) := restrict topo c.set c.flags
     match ret with
     | .rootRemoved => ("MODEL-UNDEFINED root-would-be-removed", .unknown)
@@ -146,7 +147,7 @@ def verdict (st : State) (c : Call) (bd : Dump) (braw : List (List String)) (ad 
     | .ok =>
       -- well-formedness must be preserved: clauses violated after the call that were not already violated before it
       let clause (s : String) : String := (s.splitOn "@").headD s
-      let wfBefore := (wfCheck bd).map clause
+      let wfBefore := wfB.map clause
       let wf := (wfCheck ad).filter (fun s => !wfBefore.contains (clause s))
       let probs := hyp ++
         (match firstDiff (rowsT (-1) topo'.tree) (rowsOfDump ad) with | none => [] | some s => [s]) ++
@@ -159,7 +160,7 @@ def verdict (st : State) (c : Call) (bd : Dump) (braw : List (List String)) (ad 
                           (extraOf tb (gpTable ad))) ad with
           | none => [] | some s => ["render-after:" ++ s]) ++
         (if (typedT topo'.tree && puLeafT topo'.tree && isNormal topo'.tree.obj.type) || !(typedT tree && puLeafT tree) then [] else ["hypothesis-typedT-not-preserved"]) ++
-        (if (wfCheck bd).isEmpty then survivorsCheck tree topo c ad else []) ++
+        (if wfB.isEmpty then survivorsCheck tree topo c ad else []) ++
         -- A8: C08_restrict_leaf_root evaluated: mergeSafe and the identity of the root are preserved
         (if (decide (mergeSafe topo') && ident topo'.tree.obj == ident tree.obj) || !(decide (mergeSafe topo) && typedT tree && puLeafT tree)
           then [] else ["mergeSafe-or-root-not-preserved"])
